@@ -278,6 +278,76 @@ fn invalid_regex_case(ch: &mut Choices<'_>, st: &mut Stats) -> CaseResult {
     }
 }
 
+/// Idioms: every combination of an anchor prefix, a "match anything"-like body, an anchor
+/// suffix and a flag group, on values with and without line breaks (exhaustive).
+fn idiom(k: usize) -> Rx {
+    use rx::Node::*;
+    let (pre, body, suf, flags) = (k % 3, (k / 3) % 10, (k / 30) % 3, (k / 90) % 4);
+    let mut seq: Vec<rx::Node> = Vec::new();
+    match pre {
+        1 => seq.push(Start),
+        2 => seq.push(Assert(4)),
+        _ => {}
+    }
+    match body {
+        0 => {}
+        1 => seq.push(Any),
+        2 => seq.push(Repeat(Box::new(Any), 1)),
+        3 => seq.push(Repeat(Box::new(Any), 2)),
+        4 => seq.push(Repeat(Box::new(Any), 0)),
+        5 => seq.push(Repeat(Box::new(Any), 4)),
+        6 => seq.push(Group(vec![vec![Repeat(Box::new(Any), 1)]])),
+        7 => seq.push(Repeat(Box::new(Class { neg: true, items: vec![rx::ClassItem::One(b'a')] }), 1)),
+        8 => seq.push(Repeat(Box::new(Lit(b'a')), 1)),
+        _ => seq.push(Repeat(Box::new(Perl(2, true)), 1)),
+    }
+    match suf {
+        1 => seq.push(End),
+        2 => seq.push(Assert(5)),
+        _ => {}
+    }
+    let alts = vec![seq];
+    match flags {
+        0 => Rx { alts },
+        1 => Rx { alts: vec![vec![Flags { ci: false, dotall: true, multi: false, alts }]] },
+        2 => Rx { alts: vec![vec![Flags { ci: false, dotall: false, multi: true, alts }]] },
+        _ => Rx { alts: vec![vec![Flags { ci: true, dotall: true, multi: true, alts }]] },
+    }
+}
+
+const IDIOMS: usize = 3 * 10 * 3 * 4;
+const IDIOM_VALUES: [&[u8]; 12] = [b"", b"a", b"b", b"\n", b"a\nb", b"first\nsecond", b"aaa\n", b"\naaa", b"\r\n", b"x\ry", b"\xff\xfe", b"ab c"];
+
+fn idiom_case(ch: &mut Choices<'_>, st: &mut Stats) -> CaseResult {
+    let k = ch.draw(IDIOMS);
+    let raw = ch.draw(2) == 1;
+    let rx = idiom(k);
+    let p = rx.pattern();
+    let lit = rx::regex_literal(&p, &if raw { RegexForm::Raw(1) } else { RegexForm::Quoted });
+    let text = place(k / 7, &format!("s matches {lit}"));
+    let show = || json!({"scheme": "s: Bytes", "filter": text, "pattern_for_the_regex_engine": p});
+    let scheme: &Scheme = &SCHEME;
+    let parser = FilterParser::new(scheme);
+    let ast = match parse_with(&parser, &text, &show)? {
+        Ok(a) => a,
+        Err(e) => return Err(Fail::new("valid-regex-rejected", format!("a regex idiom was rejected:\n{e}"), show())),
+    };
+    let filter = catch(|| ast.compile()).map_err(|e| Fail::new("compile-panic", e, show()))?;
+    for v in IDIOM_VALUES {
+        st.eval();
+        let want = rx.is_match(v);
+        let got = exec_on(&filter, v).map_err(|e| Fail::new("execute-failed", e, show()))?;
+        if got != want {
+            let mut c = show();
+            c["value"] = json!(show_bytes(v));
+            return Err(Fail::new("regex-match-mismatch", format!("value {:?}: engine says {got}, reference matcher says {want}", show_bytes(v)), c));
+        }
+    }
+    st.class("regex-idiom");
+    st.nontrivial(&text);
+    Ok(())
+}
+
 // ---------------------------------------------------------------------------
 // (b) wildcards
 
@@ -321,6 +391,16 @@ fn wild_values(t: &[WTok], pattern: &[u8]) -> Vec<Vec<u8>> {
     }
     if v1.len() > 1 {
         s.insert(v1[1..].to_vec());
+    }
+    // long values: a star stands for 253..255 / 510 filler bytes, so that the literal parts
+    // straddle offsets 256 and 512; in both cases and with the cases swapped
+    if t.iter().any(|x| *x == WTok::Star) {
+        for n in [253usize, 254, 255, 510] {
+            let long = expand(t, &vec![b'x'; n]);
+            s.insert(long.to_ascii_uppercase());
+            s.insert(swapcase(&long));
+            s.insert(long);
+        }
     }
     s.insert(pattern.to_vec());
     s.insert(v0);
@@ -606,6 +686,7 @@ fn size_key(i: u64) -> Vec<u32> {
 pub fn subs() -> Vec<Sub> {
     vec![
         Sub { name: "regex", f: Box::new(regex_case) },
+        Sub { name: "regex-idioms", f: Box::new(idiom_case) },
         Sub { name: "regex-more-values", f: Box::new(regex_case_thorough) },
         Sub { name: "regex-invalid", f: Box::new(invalid_regex_case) },
         Sub { name: "wildcards", f: Box::new(wild_case) },
@@ -634,6 +715,7 @@ pub fn run(run: &Run) {
         Tier::Quick => run.random("regex", 20_000, 160, &*f("regex").f),
         Tier::Thorough => run.random("regex-more-values", 1_500_000, 260, &*f("regex-more-values").f),
     }
+    run.enumerate("regex-idioms", (IDIOMS * 2) as u64, &|i| vec![(i / 2) as u32, (i % 2) as u32], &*f("regex-idioms").f);
     run.random("regex-invalid", run.tier.pick(4_000, 100_000), 60, &*f("regex-invalid").f);
     let l = run.tier.pick(6, MAX_WILD_LEN);
     run.enumerate("wildcards", wild_total(l), &wild_key, &*f("wildcards").f);
